@@ -12,6 +12,7 @@
       mixture, truncation or missing file": classification of what the real loader found.
 -/
 import IcingaModel.C14.Model
+import IcingaModel.C20.Limit
 
 namespace Icinga.C14
 
@@ -115,6 +116,13 @@ def specM {N : Type} [DecidableEq N] : Ghost N → Dict N → List (MOp N × Boo
 
 def specRoundtrip {N : Type} [DecidableEq N] (before after : JValue N) : Option Clause :=
   if before = after then none else some .stateRoundtrip
+
+/-- State side of the restart (`before`/`after` = `Serialize(object, FAState)`).  The record written for the
+    object is `{name, type, update = before}`, one level deeper than `before`; the JSON decoder documents a
+    nesting limit of 1000 (json.cpp:276-283, C20) beyond which a document is refused, so nothing is demanded of
+    state nested deeper than that. -/
+def specRestartState {N : Type} [DecidableEq N] (before after : JValue N) : Option Clause :=
+  if Icinga.C20.depth before + 1 > Icinga.C20.jsonMaxNestingDepth then none else specRoundtrip before after
 
 def origAttrKey : Key := "__original_attributes".toList
 
